@@ -68,6 +68,13 @@ func newPlan(rng *mrand.Rand, key echgen.KeyPair, aead uint16, compress bool) *p
 // record encodes, seals and serialises the plan.
 func (p *plan) record() []byte {
 	inner := p.inner.Clone()
+	// faults that drop inner extensions can leave the run past the end: clamp (the run is only a layout choice)
+	if p.start > len(inner.Exts) {
+		p.start = len(inner.Exts)
+	}
+	if p.start+p.n > len(inner.Exts) {
+		p.n = len(inner.Exts) - p.start
+	}
 	enc := inner.Clone()
 	enc.SessionID = nil
 	if p.n > 0 || p.marker != nil {
